@@ -1091,6 +1091,10 @@ struct Zeroconf {
     /// Active "Browse" commands.
     service_queriers: HashMap<String, Sender<ServiceEvent>>, // <ty_domain, channel::sender>
 
+    /// The service types in `service_queriers` that are browsed cache-only:
+    /// no query of any kind is sent on their behalf.
+    cache_only_queriers: HashSet<String>,
+
     /// Active "ResolveHostname" commands.
     ///
     /// The timestamps are set at the future timestamp when the command should timeout.
@@ -1308,6 +1312,7 @@ impl Zeroconf {
             dns_registry_map,
             hostname_resolvers: HashMap::new(),
             service_queriers: HashMap::new(),
+            cache_only_queriers: HashSet::new(),
             retransmissions: Vec::new(),
             counters: HashMap::new(),
             poller,
@@ -2706,7 +2711,7 @@ impl Zeroconf {
                             Ok(()) => debug!("sent service resolved: {}", ptr.alias()),
                             Err(e) => debug!("failed to send service resolved: {}", e),
                         }
-                    } else {
+                    } else if !self.cache_only_queriers.contains(ty_domain) {
                         unresolved.insert(ptr.alias().to_string());
                     }
                 }
@@ -3223,7 +3228,9 @@ impl Zeroconf {
                             .or_insert_with(HashSet::new)
                             .insert(instance.to_string());
                     }
-                    unresolved.insert(instance.to_string());
+                    if !self.cache_only_queriers.contains(ty_domain) {
+                        unresolved.insert(instance.to_string());
+                    }
                 }
             }
         }
@@ -3677,6 +3684,11 @@ impl Zeroconf {
             //
             // If there is already a `listener`, it will be updated, i.e. overwritten.
             self.service_queriers.insert(ty.clone(), listener.clone());
+            if cache_only {
+                self.cache_only_queriers.insert(ty.clone());
+            } else {
+                self.cache_only_queriers.remove(&ty);
+            }
 
             // A new browse replaces the current one: cancel the pending queries of
             // the previous browse, they would otherwise go on in parallel.
@@ -3874,6 +3886,8 @@ impl Zeroconf {
         match self.service_queriers.remove_entry(&ty_domain) {
             None => debug!("StopBrowse: cannot find querier for {}", &ty_domain),
             Some((ty, sender)) => {
+                self.cache_only_queriers.remove(&ty);
+
                 // Remove pending browse commands in the reruns.
                 trace!("StopBrowse: removed queryer for {}", &ty);
                 let mut i = 0;
@@ -4012,6 +4026,10 @@ impl Zeroconf {
         let mut query_addr_count = 0;
 
         for (ty_domain, _sender) in self.service_queriers.iter() {
+            if self.cache_only_queriers.contains(ty_domain) {
+                continue; // a cache-only browse never sends queries.
+            }
+
             let refreshed_timers = self.cache.refresh_due_ptr(ty_domain);
             if !refreshed_timers.is_empty() {
                 trace!("sending refresh query for PTR: {}", ty_domain);
